@@ -320,7 +320,8 @@ def gen_turns_merge(rng, name, nturns, big_every=0):
     copied by a merge and FOLLOWED by other copied streams: later in the same file and in older files."""
     hosts = [c01.rand_host(rng, False) for _ in range(3)]
     src = c01.Src(rng, 2)
-    tb = c01.time_base(rng)
+    # the format (and the model: time = ns since the epoch in N) has no times before 1970: keep a day of room for the older file
+    tb = c01.time_base(rng) + 2 * 86400 * 10 ** 9
     opts = {"maxpk": 6, "p_flip": 0.5}
     sid = iter(range(1, 100))
 
